@@ -580,6 +580,52 @@ Definition aca_step (A X : mat) (i j0 : nat) (alpha : R) : mat :=
   rank_1_update X alpha (aca_col A X j0) (aca_E_row A X i).
 
 (* ------------------------------------------------------------------ *)
+(* find_truncation_rank, tensor.py:186-207 (greedy truncation of a HOSVD core), in exact arithmetic:
+   err**2 of _find_best_truncation_axis is the squared norm of the last slice along the axis *)
+(* ------------------------------------------------------------------ *)
+Variable rltb : R -> R -> bool.      (* a < b *)
+
+Definition sqnorm (shape : list nat) (f : list nat -> R) : R :=
+  rsum (map (fun idx => rmul (f idx) (f idx)) (ndindex shape)).
+(* the multi-indices of np.swapaxes(X, ax, 0)[-1] *)
+Definition last_slice (shape : list nat) (ax : nat) : list (list nat) :=
+  product (map (seq 0) (firstn ax shape) ++ [nth ax shape 0 - 1] :: map (seq 0) (skipn (S ax) shape)).
+Definition slice_sq (shape : list nat) (f : list nat -> R) (ax : nat) : R :=
+  rsum (map (fun idx => rmul (f idx) (f idx)) (last_slice shape ax)).
+(* sl[ax] = slice(None, -1) *)
+Definition dec_axis (shape : list nat) (ax : nat) : list nat :=
+  firstn ax shape ++ (nth ax shape 0 - 1) :: skipn (S ax) shape.
+(* np.argmin: first minimal entry *)
+Fixpoint argmin_aux (best : nat) (bestv : R) (k : nat) (vs : list R) : nat * R :=
+  match vs with
+  | [] => (best, bestv)
+  | v :: vs' => if rltb v bestv then argmin_aux k v (S k) vs' else argmin_aux best bestv (S k) vs'
+  end.
+Definition best_axis (shape : list nat) (f : list nat -> R) : nat * R :=
+  match map (slice_sq shape f) (seq 0 (length shape)) with
+  | [] => (0, rO)
+  | v :: vs => argmin_aux 0 v 1 vs
+  end.
+(* the while loop; returns the final shape and the accumulated squared error of the slices that
+   were actually cut off (the code keeps adding before it tests: the rejected slice is not cut) *)
+Fixpoint trunc_loop (fuel : nat) (shape : list nat) (f : list nat -> R) (tolsq total : R) : list nat * R :=
+  match fuel with
+  | 0 => (shape, total)
+  | S fuel' =>
+      match shape with
+      | [] => (shape, total)
+      | _ =>
+          if existsb (Nat.eqb 0) shape then (shape, total)          (* X.size == 0 *)
+          else let '(ax, e2) := best_axis shape f in
+               let total' := radd total e2 in
+               if rltb tolsq total' then (shape, total)
+               else trunc_loop fuel' (dec_axis shape ax) f tolsq total'
+      end
+  end.
+Definition find_truncation_rank (X : full) (tolsq : R) : list nat * R :=
+  trunc_loop (S (fold_right Nat.add 0 (fsh X))) (fsh X) (fe X) tolsq rO.
+
+(* ------------------------------------------------------------------ *)
 (* literals for the correspondence run                                 *)
 (* ------------------------------------------------------------------ *)
 Definition lmat := (nat * nat * list (list R))%type.
@@ -755,6 +801,11 @@ Definition check_r1 (c : lmat * R * list R * list R * lmat) : bool :=
 Definition check_r3 (c : lfull * R * list R * lmat * lfull) : bool :=
   let '(X, alpha, u, V, expected) := c in
   lfull_eqb (full_tab (aca3d_update (full_of X) alpha (fun i => nth i u rO) (me (mat_of V)))) expected.
+
+(* find_truncation_rank(X, tol) with tol^2 given *)
+Definition check_trunc (c : lfull * R * list nat) : bool :=
+  let '(X, tolsq, expected) := c in
+  leqb Nat.eqb (fst (find_truncation_rank (full_of X) tolsq)) expected.
 
 (* indices of the cases that disagree *)
 Fixpoint bad {A} (chk : A -> bool) (k : nat) (cs : list A) : list nat :=
